@@ -39,12 +39,12 @@ Next ==
   \/ Poll(<<>>, 0) \/ Poll(<<<<0, EV_OUT>>>>, 0)
   \/ Resume
   \/ Tick
-  \/ ChildExit(1, 3)
+  \/ ChildExit(1, 0)     \* (the boundary value: "exited with 0" must count as exited everywhere)
   \/ ChildOut(1, 1) \/ ChildErr(1, 1)
   \/ ChildClose(1, 1)
   \/ ChildRead(1, 1)
   \/ ChildCloseX(1)
-  \/ ChildExitG(1, 3) \/ GrandGone(1)
+  \/ ChildExitG(1, 0) \/ GrandGone(1)
   \/ Interrupt
 
 Spec == Init /\ [][Next]_vars
